@@ -1047,6 +1047,10 @@ func DecodeCashAddress(str string) (string, []byte, error) {
 		return "", nil, ErrChecksumMismatch
 	}
 
+	if len(values) < 8 {
+		return "", nil, errors.New("address is shorter than its checksum")
+	}
+
 	return prefix, values[:len(values)-8], nil
 }
 
